@@ -3,6 +3,30 @@ package main
 func init() {
 	machineByID[1] = func() Machine { return &cmsMem{} }
 
+	machineByID[3] = func() Machine { return &bloomMem{} }
+	machineByID[5] = func() Machine { return &hllMem{} }
+
+	registry["C01"] = []Suite{
+		{Name: "bloom-mem", NewMachine: func() Machine { return &bloomMem{} }, Gen: genC01,
+			Monitors: []Monitor{monitorBloom("mem")}, OpName: bloomOpName,
+			Nontrivial: func(r *RunResult) bool { return countOps(r, blInsert) >= 2 },
+			Rule: "history with >=2 inserts followed by lookups of inserted and fresh elements; distinct by SHA-1 of the case",
+			Quick: 300, Thorough: 5000},
+	}
+	registry["C05"] = []Suite{
+		{Name: "hll-mem", NewMachine: func() Machine { return &hllMem{} }, Gen: genC05,
+			Monitors: []Monitor{monitorHLL("mem", "C05")}, OpName: hllOpName,
+			Nontrivial: func(r *RunResult) bool { return countOps(r, hlUpdate) >= 1 },
+			Rule: ">=1 update then counts under all four flag combinations; distinct by SHA-1",
+			Quick: 250, Thorough: 3000},
+	}
+	registry["C06"] = []Suite{
+		{Name: "hll-mem", NewMachine: func() Machine { return &hllMem{} }, Gen: genC06,
+			Monitors: []Monitor{monitorHLL("mem", "C06")}, OpName: hllOpName,
+			Nontrivial: func(r *RunResult) bool { return countOps(r, hlMerge) >= 1 },
+			Rule: "permuted+duplicated twin sequences and a split stream merged; distinct by SHA-1",
+			Quick: 250, Thorough: 3000},
+	}
 	registry["C03"] = []Suite{
 		{Name: "cms-mem", NewMachine: func() Machine { return &cmsMem{} }, Gen: genC03,
 			Monitors: []Monitor{monitorCMS("mem", "C03")}, OpName: cmsOpName,
@@ -34,4 +58,14 @@ func cmsNontrivial(r *RunResult) bool {
 		}
 	}
 	return len(seen) >= 1
+}
+
+func countOps(r *RunResult, kind int) int {
+	n := 0
+	for _, op := range r.Ops {
+		if op.L[0].I() == kind {
+			n++
+		}
+	}
+	return n
 }
